@@ -60,12 +60,9 @@ Proof.
   rewrite forallb_forall in Hall. rewrite (Hall p Hin) in Hp. discriminate.
 Qed.
 
-(* an atom without a tabulated scattering length has no SLD *)
-Theorem no_b_c_no_data : forall D a, spec_has_data D a = false -> has_data D a = false.
-Proof.
-  intros D a H. unfold spec_has_data in H. unfold has_data, has_sld.
-  destruct (r_bc (nd_rec D (az a) (aa a))); [discriminate|]. reflexivity.
-Qed.
+(* "has neutron data" of the model is that of the specification: a tabulated scattering length *)
+Theorem has_data_is_tabulated : forall D a, has_data D a = spec_has_data D a.
+Proof. intros D a. reflexivity. Qed.
 
 (* ------------------------------------------------------------------ the regenerated table *)
 Lemma the_tbl_some : is_someb the_tbl = true.
@@ -88,13 +85,13 @@ Qed.
 
 (* every record of the loaded table that has an SLD satisfies what the refinement asks *)
 Lemma sweep_rec_ok_c :
-  on_st the_nsf (fun s => all_recs s (fun r => implb (has_sld r) (rec_okb_r the_nd r))) = true.
+  on_st the_nsf (fun s => all_recs s (fun r => implb (is_someb (r_bc r)) (rec_okb_r the_nd r))) = true.
 Proof. vm_compute. reflexivity. Qed.
 
 (* the closed constants that evaluate whole tables are unfolded last by the conversion *)
 Local Strategy opaque [the_nd the_nsf the_tbl the_dens the_env].
 
-Theorem the_nd_ok : forall z a, has_sld (nd_rec the_nd z a) = true -> rec_okb the_nd z a = true.
+Theorem the_nd_ok : forall z a, is_someb (r_bc (nd_rec the_nd z a)) = true -> rec_okb the_nd z a = true.
 Proof.
   intros z a H. destruct the_nsf_loaded as [s E]. unfold rec_okb.
   rewrite (the_nd_rec s E) in *. unfold neutron_of in *.
@@ -118,46 +115,33 @@ Proof.
   split; [exact H1|]. split; [exact H2|]. intro Hdata. apply the_nd_ok. unfold has_data in Hdata. exact Hdata.
 Qed.
 
-(* ------------------------------------------------------------------ full strength of the None clause *)
-(* "a compound whose atoms all have neutron data gets numbers" fails on the faithful model:
-   Ra has a tabulated scattering length and cross sections, but no element density, and has_sld()
-   asks for one although the calculation at a given density does not use it *)
-Definition ra_witness : struct := [(1%Q, FAtom (mkAtom 88 0 0)); (3%Q, FAtom (mkAtom 8 0 0))].
-Definition ra_check (D : ndata) : bool :=
-  (forallb (fun p => spec_has_data D (fst p)) (atoms_of ra_witness)
-   && match neutron_scattering D ra_witness (Some 5%Q) None [WLam (1798 # 1000)] with ONone => true | _ => false end)%bool.
-Lemma ra_witness_c : ra_check the_nd = true.
-Proof. vm_compute. reflexivity. Qed.
-
-Theorem values_iff_tabulated_refuted :
-  exists s rho w, (forall p, In p (atoms_of s) -> spec_has_data the_nd (fst p) = true) /\
-                  neutron_scattering the_nd s (Some rho) None [w] = ONone.
-Proof.
-  exists ra_witness, 5%Q, (WLam (1798 # 1000)). pose proof ra_witness_c as H. unfold ra_check in H.
-  apply andb_prop in H. destruct H as [H1 H2]. split.
-  - intros p Hin. rewrite forallb_forall in H1. exact (H1 p Hin).
-  - destruct (neutron_scattering the_nd ra_witness (Some 5%Q) None [WLam (1798 # 1000)]); try discriminate H2.
-    reflexivity.
-Qed.
-
-(* what holds: numbers exactly when every atom has an SLD of its own (scattering length and
-   element density) *)
-Theorem values_iff_sld_partial : forall D s density natural_density ws rho,
+(* ------------------------------------------------------------------ the None clause, both directions *)
+(* (None, None, None) exactly when some atom of the compound has no tabulated scattering length *)
+Theorem none_iff_missing_data : forall D s density natural_density ws rho,
   density_of_compound D s density natural_density = Some rho ->
   (neutron_scattering D s density natural_density ws = ONone <->
-   exists p, In p (atoms_of s) /\ has_data D (fst p) = false).
+   exists p, In p (atoms_of s) /\ spec_has_data D (fst p) = false).
 Proof.
   intros D s density natural_density ws rho Hrho. split.
   - intro H. unfold neutron_scattering in H. rewrite Hrho in H.
     destruct (forallb (fun p => has_data D (fst p)) (atoms_of s)) eqn:Hall.
-    + cbn [negb] in H. destruct (Qeq_bool _ 0); [discriminate|]. destruct (all_some _); discriminate.
+    + cbn [negb] in H. destruct (Qeq_bool _ 0); [discriminate H|]. destruct (all_some _); discriminate H.
     + assert (Hex : existsb (fun p => negb (has_data D (fst p))) (atoms_of s) = true).
-      { clear -Hall. induction (atoms_of s) as [|p r IH]; [discriminate|]. cbn [forallb existsb] in *.
+      { clear -Hall. induction (atoms_of s) as [|p r IH]; [discriminate Hall|]. cbn [forallb existsb] in *.
         destruct (has_data D (fst p)); [cbn; apply IH; exact Hall|reflexivity]. }
       apply existsb_exists in Hex. destruct Hex as (p & Hin & Hp). exists p. split; [exact Hin|].
-      destruct (has_data D (fst p)); [discriminate|reflexivity].
-  - apply (missing_gives_none D s density natural_density ws rho Hrho).
+      rewrite <- has_data_is_tabulated. destruct (has_data D (fst p)); [discriminate Hp|reflexivity].
+  - intros (p & Hin & Hp). apply (missing_gives_none D s density natural_density ws rho Hrho).
+    exists p. split; [exact Hin|]. rewrite has_data_is_tabulated. exact Hp.
 Qed.
+
+(* Ra has a scattering length but no element density: its compounds at a given density get numbers *)
+Definition ra_witness : struct := [(1%Q, FAtom (mkAtom 88 0 0)); (3%Q, FAtom (mkAtom 8 0 0))].
+Definition ra_check (D : ndata) : bool :=
+  (negb (has_sld (nd_rec D 88 0))
+   && match neutron_scattering D ra_witness (Some 5%Q) None [WLam (1798 # 1000)] with OVals [_] => true | _ => false end)%bool.
+Lemma ra_witness_c : ra_check the_nd = true.
+Proof. vm_compute. reflexivity. Qed.
 
 (* ------------------------------------------------------------------ element / isotope queried directly *)
 (* atoms_of of the one-atom formula *)
@@ -221,7 +205,9 @@ Section OneAtom.
     destruct (all_some (map (atom_at D z a nd) ws)) as [va'|] eqn:Ea; [|discriminate].
     inversion H; subst va'. clear H.
     unfold neutron_scattering, density_of_compound. rewrite atoms_of_one. rewrite Hdens.
-    cbn [forallb fst]. unfold has_data. cbn [az aa atom]. rewrite Hsld. cbn [negb andb].
+    assert (Hbc : is_someb (r_bc (nd_rec D z a)) = true).
+    { unfold has_sld in Hsld. destruct (r_bc (nd_rec D z a)); [reflexivity|discriminate Hsld]. }
+    cbn [forallb fst]. unfold has_data. cbn [az aa atom]. rewrite Hbc. cbn [negb andb].
     assert (Hv : Qeq_bool (rweight (e_mass (nd_env D)) [(atom, Qred (0 + 1 * 1)%Q)] * rho) 0 = false).
     { destruct (Qeq_bool _ 0) eqn:E; [|reflexivity]. exfalso. apply Qeq_bool_iff in E.
       apply Qeq_eqR in E. rewrite Q2R_mult in E. unfold rweight in E. cbn [fold_left fst snd] in E.
